@@ -59,6 +59,11 @@ def run_extract(job):
             r = M.compare_list(m, out_p, check_sc=True)
             if r is not None:
                 out["model_fail"] = ("hevc.extract", r[0], r[1])
+    if job.get("model_only"):
+        if res.crashed():
+            out["fail"] = ("no crash", res.brief())
+        out["class"] = "model-only"
+        return out
     if exp is None:
         if res.rc == 0 or res.crashed():
             out["fail"] = ("error exit (library cannot convert an RPU)", res.brief())
@@ -257,6 +262,22 @@ def run(ctx):
                               params="irap", pad=(0, 3), eos="none")
         stream_stats(st, 8)
         add_extract(r, st, 8, len(streams), 3)
+
+    # frames without an RPU (outside the property's quantifier; model correspondence only): the tool matches the k-th RPU with
+    # the frame decoded k-th, the model says so
+    for i in range(12 if quick else 100):
+        r = rng.fork("gap%d" % i)
+        nfr = r.choice([3, 6, 10])
+        st, base = new_stream(r, nfr, 8, r.shuffle(uni_small if len(uni_small) >= nfr else small)[:nfr], el="none")
+        for k in set(r.below(nfr) for _ in range(1 + r.below(2))):
+            st.aus[k].nals = [n for n in st.aus[k].nals if n.role != "rpu"]
+        if st.size() > REAL_CHUNK - 3000:
+            continue
+        data = st.render()
+        streams.append((st, data))
+        c = {"chunk": r.choice([257, 4096, None]), "stdin": False, "iflag": False}
+        ejobs.append({"cfg": c, "sid": len(streams) - 1, "expected": [], "order": st.display_order(), "model_only": True,
+                      "mline": M.extract_line(st, conv, None), "decode_order_payloads": []})
 
     # ---------------- inject
     for i in range(n_inj):
